@@ -406,7 +406,7 @@ def check_parse(ctx, gram, lines, opts, header, proc, how="list", tags=()):
     ctx.count("parse:%s,guarded=%s,result=%s" % (how, r.get("guarded"), "ok" if "ok" in res else res["error"]))
     ctx.count("parse:mode=q%d,s%d" % (opts["strip_quotes"], opts["suppress"]))
     if r.get("guarded"):
-        ctx.count("parse:within the theorem's guard=%s" % r.get("in_theorem_guard"))
+        ctx.count("parse:rows ending in empty fields=%s" % (not r.get("strict_guard")))
     if res.get("error", "").startswith("Unexpected"):
         ctx.diverge(case, "from_file raised %s" % res["error"], tags)
     report(ctx, case, r, ("parse",) + tuple(tags))
@@ -793,10 +793,11 @@ def run(ctx):
                 in_fmt = "json" if (rng.random() < 0.7 or not hdf5_faithful(t)) else "hdf5"
                 check_cli_command(ctx, t.copy(), files, opts, facts, out_json, in_fmt, (route, hist))
     finally:
-        for name in os.listdir(TMP) if os.path.isdir(TMP) else []:
-            p = os.path.join(TMP, name)
-            if name.startswith(("cli_", "map_")):
-                shutil.rmtree(p, ignore_errors=True) if os.path.isdir(p) else os.remove(p)
+        # only this process's scratch (thorough runs are sharded over worker processes)
+        shutil.rmtree(os.path.join(TMP, "cli_%d" % os.getpid()), ignore_errors=True)
+        p = os.path.join(TMP, "map_%d.txt" % os.getpid())
+        if os.path.exists(p):
+            os.remove(p)
 
 
 def unvtext(s):
